@@ -902,6 +902,10 @@ def backend_checks(ld, r, tier, prop):
                             # reaches the consumer like any other error (a worker that dies of it would leave the consumer waiting forever)
                             tables.append(({r.randrange(n): ('raise', 'FilterException')}, None))
                             tables.append(({r.randrange(n): ('raise', 'FilterException')}, False))
+                            # ... and SELECTED exceptions on the pools that can carry the catcher: the example is omitted (the marker that the
+                            # worker sends back has to survive the trip between the processes)
+                            tables.append(({r.randrange(n): ('raise', 'FilterException')}, True))
+                            tables.append(({r.randrange(n): ('raise', 'KeyError'), 0: ('val', None)}, (KeyError, ld.FilterException)))
                     for (t, catch) in tables:
                         if catch and be in ('concurrent_mp', 'multiprocessing'):
                             continue        # plain pickle cannot transfer the local catcher function: refused loudly (AttributeError) before any example
